@@ -187,6 +187,7 @@ CLAIMED = {
  "C18": dict(
   text="Lean 4 theorems (FormakVerif.C18): search_sound / bfs_sound prove for every transition graph with distinct transition names, every fuel "
        "and every queue that a path returned by the breadth-first search, followed from the start state, ends in the requested state; "
+       "history_linked / history_of_follow / search_history that the history recorded for ANY sequence of transition calls from any state of any graph only joins states by declared transitions, has one entry per successful call plus the start and ends in the state reached; "
        "search_is_shortest / unreachable_fails that no shorter path exists and that failure means unreachable (any finite graph); argmin_mem "
        "/ argmin_some prove that grid selection returns a member of the grid; min_samples the size gate. The transition graph of the current "
        "source is extracted from the live classes on every run (translator) and declared_transitions, search_table (shortest paths and failure "
